@@ -317,6 +317,11 @@ func runC02(c *Ctx) {
 	c02ConfigPlumbing(c)
 
 	// R5 side effects only on completed lookups
+	// R8 a failed request counts as unreachable, never as answered: the termination test counts
+	// answered peers only (C01.R5)
+	c.Rule("R8")
+	c.Share("C01", "R5")
+
 	c.Rule("R5")
 	{
 		completedTrue := func(info *eng.Info) func(eng.Fact) bool {
@@ -501,7 +506,10 @@ func c02R4(c *Ctx) {
 			if doneCh != nil {
 				def := f.LocalVarDef(doneCh)
 				isMake, capE := eng.MakeChan(info, defOrNil(def))
-				la := eng.LenArg(info, defOrNil(capE))
+				var la ast.Expr
+				if capE != nil {
+					la = lenOf(f, capE)
+				}
 				c.Check(K(f.Name, "done channel capacity"), goStmt.Pos(), isMake && la != nil && eng.IsObj(info, la, qpeers), "the completion channel can hold one signal per worker", "capacity is not len(queryPeers)")
 				c02Drain(c, f, doneCh, qpeers, stopFn)
 			}
@@ -678,33 +686,50 @@ func c02Drain(c *Ctx, f *eng.Func, doneCh, qpeers, stopFn eng.Object) {
 		okc, wc := cf.MustPass(cf.LocOf(ctxArm.Comm), eng.LocSet(couts...), eng.LocSet(clears...))
 		c.CheckW(K(f.Name, "cancelled wait is incomplete"), ctxArm.Pos(), okc, "a follow-up cut short by the context is reported as not completed", "the ctx.Done() arm can be left with completed still set", cf.DescribePath(wc))
 	}
-	// drain: for i := counter; i < len(queryPeers); i++ { <-doneCh } behind !completed
+	// drain: a loop that runs len(queryPeers)-counter times and receives once per turn
 	okDrain := false
 	f.Walk(func(n ast.Node) bool {
-		fs, isFor := n.(*ast.ForStmt)
-		if !isFor || fs.Init == nil || fs.Cond == nil {
+		st, isStmt := n.(ast.Stmt)
+		if !isStmt {
 			return true
 		}
-		init, isAs := fs.Init.(*ast.AssignStmt)
-		if !isAs || len(init.Rhs) != 1 || !eng.IsObj(info, init.Rhs[0], counter) {
+		lo, hi, isLoop := tripCount(info, st)
+		if !isLoop || lo == nil || !eng.IsObj(info, lo, counter) {
 			return true
 		}
-		b, isB := eng.Unparen(fs.Cond).(*ast.BinaryExpr)
-		if !isB || b.Op != token.LSS {
+		if la := lenOf(f, hi); la == nil || !eng.IsObj(info, la, qpeers) {
 			return true
 		}
-		la := eng.LenArg(info, b.Y)
-		if la == nil || !eng.IsObj(info, la, qpeers) || !eng.IsObj(info, b.X, eng.ObjOf(info, init.Lhs[0])) {
-			return true
+		var body *ast.BlockStmt
+		switch lp := st.(type) {
+		case *ast.ForStmt:
+			body = lp.Body
+		case *ast.RangeStmt:
+			body = lp.Body
 		}
-		nrecv := 0
-		ast.Inspect(fs.Body, func(x ast.Node) bool {
-			if u, ok := x.(*ast.UnaryExpr); ok && u.Op == token.ARROW && eng.IsObj(info, u.X, doneCh) {
-				nrecv++
+		nrecv, other := 0, false
+		ast.Inspect(body, func(x ast.Node) bool {
+			switch u := x.(type) {
+			case *ast.UnaryExpr:
+				if u.Op == token.ARROW && eng.IsObj(info, u.X, doneCh) {
+					nrecv++
+				}
+			case *ast.BranchStmt, *ast.ReturnStmt:
+				other = true
+			case *ast.IncDecStmt:
+				if eng.IsObj(info, u.X, counter) {
+					other = true
+				}
+			case *ast.AssignStmt:
+				for _, l := range u.Lhs {
+					if eng.IsObj(info, l, counter) {
+						other = true
+					}
+				}
 			}
 			return true
 		})
-		if nrecv == 1 {
+		if nrecv == 1 && !other {
 			okDrain = true
 		}
 		return true
